@@ -8,7 +8,7 @@ import numpy as np
 
 import vlib
 from vlib import Hit
-from oracle import pairs, sweep
+from oracle import pairs, sweep, proved
 
 # Configurations that violate the refinement clause literally on the unchanged
 # tree because the method sits on an error floor of its own (DESIGN §3 C01,
@@ -310,10 +310,24 @@ def run(ctx, pid, direction):
     ctx.cov.update(obligations=len(pr['theorems']) + tie['goals'],
                    discharged=pr['discharged'] + (tie['goals'] if not tie['failed'] else 0),
                    oracle_tie_goals=tie['goals'], oracle_tie_failed=[f[0] for f in tie['failed']])
-    broken = (not pr['ok']) or (not tie_ok)
+    # stretch 2: the operator the convergence theorems speak about is the operator of the implementation
+    optie = proved.operator_tie(ctx, rng, pid)
+    ctx.cov['obligations'] += optie['goals']
+    ctx.cov['discharged'] += optie['goals'] if not optie['failed'] else 0
+    ctx.cov['operator_tie'] = dict(goals=optie['goals'], failed=bool(optie['failed']), left_inverse=optie['left_inverse'],
+                                   samples=optie['samples'])
+    broken = (not pr['ok']) or (not tie_ok) or (not optie['ok'])
     hits, st = run_sweep(ctx, rng, direction, pid, enlarged=broken and ctx.quick)
+    if direction == 'forward':
+        chits, cn, cworst = proved.forward_consequences(ctx, rng, pid)
+    else:
+        chits, cn, cworst = proved.inverse_consequences(ctx, rng, pid)
+    hits += chits
+    ctx.cov['proved_per_method'] = proved.PER_METHOD[pid]
+    ctx.cov['theorem_consequences'] = dict(evaluations=cn, worst_error_over_proved_bound=round(cworst, 4),
+                                           note='implied by the theorems + the operator tie; evaluated at every pixel')
     ctx.cov.update(
-        evaluations=st['envelope'] + st['refinement'] + 2 * st['dr'],
+        evaluations=st['envelope'] + st['refinement'] + 2 * st['dr'] + cn,
         distinct_nontrivial=len(st['nontrivial']),
         traces_validated_against_impl=st['envelope'] + st['refinement'] + 2 * st['dr'],
         rule='a sweep configuration is distinct by (direction, method, option class, family and its parameters, rows/image path, size) '
@@ -349,7 +363,14 @@ def run(ctx, pid, direction):
     if not tie_ok and new == 0:
         ctx.report_broken('oracle-tie', 'tools/oracle/pairs.py vs coq/model/AbelPairs.v',
                           json.dumps(dict(failed=tie['failed'][:2], quad_disagreements=tie['quad_bad'][:2]))[:3000])
+    if not optie['ok'] and new == 0:
+        ctx.report_broken('operator-tie', 'abel/daun.py forward operator vs gen/FormulasBasis.v daun_p0/daun_p1 '
+                          '(and left-inverse property of the inverse operators)',
+                          json.dumps(dict(failed=optie['failed'][:1], left_inverse=[x for x in optie['left_inverse'] if not x['ok']]))[:3000])
     ctx.assumptions += [
+        'convergence theorems (props/C02.v C02_forward_daun0/1_*; C01 *_partial) hold for every n; they reach the implementation '
+        'through the generated formulas (regenerated from abel/daun.py every run) whose entries are enclosed by Interval goals against '
+        'the operator the implementation applies (n up to 51 quick / 201 thorough) and through the C09 entry theorems',
         'LEVEL proof applies to the oracle theorems only (the ground-truth pairs are true Abel pairs, the dr scaling law); '
         'the envelope, refinement and dr-scale clauses are decided by a numeric sweep of the implementation against those '
         'oracles and a sweep pass is not a proof',
